@@ -1,1 +1,287 @@
-/- C09 — theorems (placeholder until the property is built). -/
+/-
+  C09 — The requested disparity interval is honoured and does not leak into costs.
+
+  First half (costs): theorems over the matching-cost model of C02 (`Model/MatchingCost.lean`):
+  the cost of a pixel at a disparity does not depend on the other requested disparities.
+  Second half (final disparity): proved for the step whose model lives here (winner-takes-all,
+  `Model/IntervalWta.lean`); refinement / filters / filling are checked on the implementation only.
+-/
+import PandoraModel.Properties.C02
+import PandoraModel.Lemmas.MCGrid
+import PandoraModel.Model.IntervalWta
+
+namespace Pandora.C09
+open Pandora Pandora.MC Pandora.IntervalWta
+
+/-- two inputs that differ only by the requested disparities -/
+structure SameButGrids (x y : Input) : Prop where
+  meas : x.meas = y.meas
+  w : x.w = y.w
+  sp : x.sp = y.sp
+  L : x.L = y.L
+  R : x.R = y.R
+  mL : x.mL = y.mL
+  mR : x.mR = y.mR
+
+/-- the disparity `k/sp` lies in the pixel's own interval -/
+def InPixelInterval (x : Input) (r c k : Int) : Prop :=
+  x.dminG r c * (x.sp : Int) ≤ k ∧ k ≤ x.dmaxG r c * (x.sp : Int)
+
+/-! ### the specification does not look at the other disparities -/
+
+theorem cause_indep (x y : Input) (h : SameButGrids x y) (r c k : Int)
+    (hx : InPixelInterval x r c k) (hy : InPixelInterval y r c k) : cause x r c k = cause y r c k := by
+  obtain ⟨h1, h2, h3, h4, h5, h6, h7⟩ := h
+  unfold InPixelInterval at hx hy
+  unfold cause
+  have ex : ¬ (k < x.dminG r c * (x.sp : Int) ∨ k > x.dmaxG r c * (x.sp : Int)) := by omega
+  have ey : ¬ (k < y.dminG r c * (y.sp : Int) ∨ k > y.dmaxG r c * (y.sp : Int)) := by omega
+  simp only [if_neg ex, if_neg ey]
+  simp only [h2, h3, h4, h5, h6, h7]
+
+theorem valueSpec_indep (x y : Input) (h : SameButGrids x y) (r c k : Int) : valueSpec x r c k = valueSpec y r c k := by
+  obtain ⟨h1, h2, h3, h4, h5, _, _⟩ := h
+  unfold valueSpec
+  simp only [h1, h2, h3, h4, h5]
+
+theorem specCell_indep (x y : Input) (h : SameButGrids x y) (r c k : Int)
+    (hx : InPixelInterval x r c k) (hy : InPixelInterval y r c k) : specCell x r c k = specCell y r c k := by
+  unfold specCell
+  rw [cause_indep x y h r c k hx hy, valueSpec_indep x y h r c k]
+
+/-! ### the model does not either -/
+
+theorem specCellWith_indep (x y : Input) (h : SameButGrids x y) (val : Int → Int → Int → Cell) (r c k : Int)
+    (hx : InPixelInterval x r c k) (hy : InPixelInterval y r c k) :
+    specCellWith val x r c k = specCellWith val y r c k := by
+  unfold specCellWith
+  rw [cause_indep x y h r c k hx hy]
+
+/-- `cost_indep`: for two runs that differ only by the requested intervals (scalar or per-pixel grids), the
+    cost of pixel `(r, c)` at the disparity `k/sp` — sample `jx` of the first volume, `jy` of the second — is the
+    same cell, as soon as `k/sp` lies in the pixel's interval in both runs.  `val` is the value function of the
+    measure (`valueSpec x` for sad/ssd/zncc, `valueCensusBits x` for census): it does not mention the grids. -/
+theorem cost_indep (x y : Input) (h : SameButGrids x y) (hx : Shape x) (hy : Shape y)
+    (hgx : gridMin x.dminG x.L.rows x.L.cols ≤ gridMax x.dmaxG x.L.rows x.L.cols)
+    (hgy : gridMin y.dminG y.L.rows y.L.cols ≤ gridMax y.dmaxG y.L.rows y.L.cols)
+    (val : Int → Int → Int → Cell) (hrx : RawOK x val) (hry : RawOK y val) (r c k : Int) (jx jy : Nat)
+    (hjx : jx < nDisp (gridMin x.dminG x.L.rows x.L.cols) (gridMax x.dmaxG x.L.rows x.L.cols) x.sp)
+    (hjy : jy < nDisp (gridMin y.dminG y.L.rows y.L.cols) (gridMax y.dmaxG y.L.rows y.L.cols) y.sp)
+    (hkx : k = gridMin x.dminG x.L.rows x.L.cols * (x.sp : Int) + jx)
+    (hky : k = gridMin y.dminG y.L.rows y.L.cols * (y.sp : Int) + jy)
+    (hix : InPixelInterval x r c k) (hiy : InPixelInterval y r c k) :
+    costVolume x r c jx = costVolume y r c jy := by
+  rw [C02.costVolume_eq_specWith_of_raw x hx val hgx hrx r c jx hjx,
+    C02.costVolume_eq_specWith_of_raw y hy val hgy hry r c jy hjy]
+  rw [← hkx, ← hky]
+  exact specCellWith_indep x y h val r c k hix hiy
+
+/-- `grid_outside_nan`: outside the pixel's own interval the cost is NaN (whatever the measure) -/
+theorem outside_pixel_interval_nan (x : Input) (r c : Int) (j : Nat)
+    (hout : ¬ InPixelInterval x r c (gridMin x.dminG x.L.rows x.L.cols * (x.sp : Int) + j)) :
+    costVolume x r c j = .nan := by
+  unfold InPixelInterval at hout
+  unfold costVolume intervalMask
+  simp only
+  rw [if_pos (by omega)]
+
+/-- the input with the scalar interval `[a, b]` (what `add_disparity` builds: two constant grids) -/
+def withScalar (x : Input) (a b : Int) : Input := { x with dminG := fun _ _ => a, dmaxG := fun _ _ => b }
+
+theorem sameButGrids_withScalar (x : Input) (a b a' b' : Int) : SameButGrids (withScalar x a b) (withScalar x a' b') :=
+  ⟨rfl, rfl, rfl, rfl, rfl, rfl, rfl⟩
+
+theorem shape_withScalar (x : Input) (a b : Int) (h : Shape x) : Shape (withScalar x a b) :=
+  ⟨h.odd, h.sp_pos, h.rows_eq, h.cols_eq, h.cols_pos⟩
+
+theorem rawOK_withScalar (x : Input) (a b : Int) (val : Int → Int → Int → Cell) (h : RawOK x val) :
+    RawOK (withScalar x a b) val := h
+
+/-- `slice_of_larger`: the volume computed for `[a, b]` is the slice of the volume computed for any larger
+    interval `[a', b'] ⊇ [a, b]`: sample `j` of the first is sample `j + (a - a')·sp` of the second. -/
+theorem slice_of_larger (x : Input) (h : Shape x) (val : Int → Int → Int → Cell) (hraw : RawOK x val) (hrows : 0 < x.L.rows)
+    (a b a' b' : Int) (hab : a ≤ b) (ha : a' ≤ a) (hb : b ≤ b') (r c : Int) (j : Nat)
+    (hj : j < nDisp a b x.sp) :
+    costVolume (withScalar x a b) r c j = costVolume (withScalar x a' b') r c (j + ((a - a') * (x.sp : Int)).toNat) := by
+  have hs := h.sp_pos
+  have hs' : (0 : Int) < x.sp := by exact_mod_cast hs
+  have hcols := h.cols_pos
+  have g1 : gridMin (withScalar x a b).dminG x.L.rows x.L.cols = a := gridMin_const a _ _ hrows hcols
+  have g2 : gridMax (withScalar x a b).dmaxG x.L.rows x.L.cols = b := gridMax_const b _ _ hrows hcols
+  have g3 : gridMin (withScalar x a' b').dminG x.L.rows x.L.cols = a' := gridMin_const a' _ _ hrows hcols
+  have g4 : gridMax (withScalar x a' b').dmaxG x.L.rows x.L.cols = b' := gridMax_const b' _ _ hrows hcols
+  have hn1 := nDisp_eq a b x.sp hs hab
+  have hn2 := nDisp_eq a' b' x.sp hs (by omega)
+  have hnn : 0 ≤ (a - a') * (x.sp : Int) := Int.mul_nonneg (by omega) (le_of_lt hs')
+  have hjb : (j : Int) ≤ (b - a) * (x.sp : Int) := by
+    have : 0 ≤ (b - a) * (x.sp : Int) := Int.mul_nonneg (by omega) (le_of_lt hs')
+    omega
+  have hmul1 : (b - a) * (x.sp : Int) = b * x.sp - a * x.sp := by ring
+  have hmul2 : (a - a') * (x.sp : Int) = a * x.sp - a' * x.sp := by ring
+  have hmul3 : (b' - a') * (x.sp : Int) = b' * x.sp - a' * x.sp := by ring
+  have hbb : b * (x.sp : Int) ≤ b' * x.sp := Int.mul_le_mul_of_nonneg_right hb (le_of_lt hs')
+  have haa : a' * (x.sp : Int) ≤ a * x.sp := Int.mul_le_mul_of_nonneg_right ha (le_of_lt hs')
+  apply cost_indep (withScalar x a b) (withScalar x a' b') (sameButGrids_withScalar x a b a' b')
+    (shape_withScalar x a b h) (shape_withScalar x a' b' h) (by show gridMin _ x.L.rows x.L.cols ≤ gridMax _ x.L.rows x.L.cols; rw [g1, g2]; exact hab)
+    (by show gridMin _ x.L.rows x.L.cols ≤ gridMax _ x.L.rows x.L.cols; rw [g3, g4]; omega)
+    val (rawOK_withScalar x a b val hraw) (rawOK_withScalar x a' b' val hraw) r c (a * (x.sp : Int) + j)
+  · show j < nDisp (gridMin (withScalar x a b).dminG x.L.rows x.L.cols) (gridMax (withScalar x a b).dmaxG x.L.rows x.L.cols) x.sp
+    rw [g1, g2]; exact hj
+  · show j + ((a - a') * (x.sp : Int)).toNat < nDisp (gridMin (withScalar x a' b').dminG x.L.rows x.L.cols) (gridMax (withScalar x a' b').dmaxG x.L.rows x.L.cols) x.sp
+    rw [g3, g4, hn2]; omega
+  · show a * (x.sp : Int) + j = gridMin (withScalar x a b).dminG x.L.rows x.L.cols * (x.sp : Int) + j
+    rw [g1]
+  · show a * (x.sp : Int) + j = gridMin (withScalar x a' b').dminG x.L.rows x.L.cols * (x.sp : Int) + ((j + ((a - a') * (x.sp : Int)).toNat : Nat) : Int)
+    rw [g3]; push_cast; omega
+  · show a * (x.sp : Int) ≤ a * (x.sp : Int) + j ∧ a * (x.sp : Int) + j ≤ b * (x.sp : Int)
+    omega
+  · show a' * (x.sp : Int) ≤ a * (x.sp : Int) + j ∧ a * (x.sp : Int) + j ≤ b' * (x.sp : Int)
+    omega
+
+/-- `grid_inside_same`: per-pixel grids give, inside each pixel's interval, the cost of the scalar run over
+    any interval `[a, b]` that contains the pixel's interval -/
+theorem grid_inside_same (x : Input) (h : Shape x) (val : Int → Int → Int → Cell) (hraw : RawOK x val) (hrows : 0 < x.L.rows)
+    (hg : gridMin x.dminG x.L.rows x.L.cols ≤ gridMax x.dmaxG x.L.rows x.L.cols)
+    (a b : Int) (hab : a ≤ b) (r c : Int) (j j' : Nat)
+    (hj : j < nDisp (gridMin x.dminG x.L.rows x.L.cols) (gridMax x.dmaxG x.L.rows x.L.cols) x.sp)
+    (hj' : j' < nDisp a b x.sp)
+    (hk : gridMin x.dminG x.L.rows x.L.cols * (x.sp : Int) + j = a * (x.sp : Int) + j')
+    (hin : InPixelInterval x r c (gridMin x.dminG x.L.rows x.L.cols * (x.sp : Int) + j)) :
+    costVolume x r c j = costVolume (withScalar x a b) r c j' := by
+  have hs := h.sp_pos
+  have hs' : (0 : Int) < x.sp := by exact_mod_cast hs
+  have hcols := h.cols_pos
+  have g1 : gridMin (withScalar x a b).dminG x.L.rows x.L.cols = a := gridMin_const a _ _ hrows hcols
+  have g2 : gridMax (withScalar x a b).dmaxG x.L.rows x.L.cols = b := gridMax_const b _ _ hrows hcols
+  have hn := nDisp_eq a b x.sp hs hab
+  have hnn : 0 ≤ (b - a) * (x.sp : Int) := Int.mul_nonneg (by omega) (le_of_lt hs')
+  have hmul : (b - a) * (x.sp : Int) = b * x.sp - a * x.sp := by ring
+  apply cost_indep x (withScalar x a b) ⟨rfl, rfl, rfl, rfl, rfl, rfl, rfl⟩ h (shape_withScalar x a b h) hg
+    (by show gridMin _ x.L.rows x.L.cols ≤ gridMax _ x.L.rows x.L.cols; rw [g1, g2]; exact hab)
+    val hraw (rawOK_withScalar x a b val hraw) r c
+    (gridMin x.dminG x.L.rows x.L.cols * (x.sp : Int) + j) j j' hj
+  · show j' < nDisp (gridMin (withScalar x a b).dminG x.L.rows x.L.cols) (gridMax (withScalar x a b).dmaxG x.L.rows x.L.cols) x.sp
+    rw [g1, g2]; exact hj'
+  · rfl
+  · show _ = gridMin (withScalar x a b).dminG x.L.rows x.L.cols * (x.sp : Int) + j'
+    rw [g1]; exact hk
+  · exact hin
+  · show a * (x.sp : Int) ≤ _ ∧ _ ≤ b * (x.sp : Int)
+    rw [hk]; omega
+
+/-! ### the stored interval is the interval searched -/
+
+/-- `stored_interval`: the first and last disparity coordinates of the cost volume (what
+    `disparity_interval` stores) are the global minimum and maximum of the requested interval(s) -/
+theorem stored_interval (gmin gmax : Int) (sp : Nat) (hs : 0 < sp) (hg : gmin ≤ gmax) :
+    (dispRange gmin gmax sp).head? = some (gmin * (sp : Int)) ∧
+    (dispRange gmin gmax sp).getLast? = some (gmax * (sp : Int)) := by
+  have hs' : (0 : Int) < sp := by exact_mod_cast hs
+  have hnn : 0 ≤ (gmax - gmin) * (sp : Int) := Int.mul_nonneg (by omega) (le_of_lt hs')
+  rw [dispRange_eq gmin gmax sp hs hg]
+  constructor
+  · rw [List.range_succ_eq_map]
+    simp
+  · rw [List.range_succ, List.map_append]
+    simp only [List.map_cons, List.map_nil, List.getLast?_append, List.getLast?_singleton]
+    simp only [Option.some_or]
+    congr 1
+    have : (((gmax - gmin) * (sp : Int)).toNat : Int) = (gmax - gmin) * sp := Int.toNat_of_nonneg hnn
+    rw [this]; ring
+
+/-! ### winner-takes-all stays inside the pixel's interval -/
+
+theorem argBest_lt (better : Cell → Cell → Bool) (f : Nat → Ext) (n : Nat) (hn : 0 < n) : argBest better f n < n := by
+  induction n using Nat.strongRecOn with
+  | _ n ih =>
+    match n, hn with
+    | 1, _ => simp [argBest]
+    | n + 2, _ =>
+      simp only [argBest]
+      split
+      · omega
+      · have := ih (n + 1) (by omega) (by omega); omega
+
+/-- if some cost is a number, the cost at the chosen index is a number -/
+theorem argBest_fin (better : Cell → Cell → Bool) (f : Nat → Ext) (n : Nat)
+    (h : ∃ j, j < n ∧ ∃ c, f j = .fin c) : ∃ c, f (argBest better f n) = .fin c := by
+  induction n using Nat.strongRecOn with
+  | _ n ih =>
+    match n with
+    | 0 => obtain ⟨j, hj, _⟩ := h; omega
+    | 1 =>
+      obtain ⟨j, hj, c, hc⟩ := h
+      have : j = 0 := by omega
+      subst this
+      exact ⟨c, by simpa [argBest] using hc⟩
+    | n + 2 =>
+      simp only [argBest]
+      split
+      · rename_i hb
+        cases hf : f (n + 1) with
+        | fin c => exact ⟨c, rfl⟩
+        | worst => rw [hf] at hb; simp [extBetter] at hb
+      · rename_i hb
+        obtain ⟨j, hj, c, hc⟩ := h
+        by_cases hjn : j = n + 1
+        · subst hjn
+          cases hfb : f (argBest better f (n + 1)) with
+          | fin c' => exact ⟨c', rfl⟩
+          | worst => rw [hc, hfb] at hb; simp [extBetter] at hb
+        · exact ih (n + 1) (by omega) ⟨j, by omega, c, hc⟩
+
+/-- `after_disp_in_pixel_interval`: whatever the measure (any strict order `better`), the index chosen by
+    winner-takes-all on the costs of a pixel is a sample of the range with a numeric cost; hence — by
+    `outside_pixel_interval_nan` — its disparity lies inside the pixel's own `[min, max]`, and inside the
+    global interval. -/
+theorem wta_in_pixel_interval (x : Input) (better : Cell → Cell → Bool) (r c : Int) (j : Nat)
+    (hw : wta better (fun j => costVolume x r c j)
+      (nDisp (gridMin x.dminG x.L.rows x.L.cols) (gridMax x.dmaxG x.L.rows x.L.cols) x.sp) = some j) :
+    j < nDisp (gridMin x.dminG x.L.rows x.L.cols) (gridMax x.dmaxG x.L.rows x.L.cols) x.sp ∧
+    (costVolume x r c j).isNan = false ∧
+    InPixelInterval x r c (gridMin x.dminG x.L.rows x.L.cols * (x.sp : Int) + j) := by
+  set n := nDisp (gridMin x.dminG x.L.rows x.L.cols) (gridMax x.dmaxG x.L.rows x.L.cols) x.sp with hn
+  unfold wta at hw
+  split at hw
+  · simp at hw
+  · rename_i hall
+    simp only [Option.some.injEq] at hw
+    -- some cost is a number
+    have hex : ∃ i, i < n ∧ ∃ cl, subst (costVolume x r c i) = .fin cl := by
+      by_contra hne
+      apply hall
+      rw [allZ_iff]
+      intro i hi
+      simp only [zero_add, Int.toNat_natCast]
+      by_contra hnn
+      apply hne
+      refine ⟨i, hi, costVolume x r c i, ?_⟩
+      unfold subst
+      simp only [Bool.not_eq_true] at hnn
+      simp [hnn]
+    have hpos : 0 < n := by obtain ⟨i, hi, _⟩ := hex; omega
+    have hlt := argBest_lt better (fun j => subst (costVolume x r c j)) n hpos
+    obtain ⟨cl, hcl⟩ := argBest_fin better (fun j => subst (costVolume x r c j)) n hex
+    rw [hw] at hlt hcl
+    have hnum : (costVolume x r c j).isNan = false := by
+      unfold subst at hcl
+      by_contra hne
+      simp only [Bool.not_eq_false] at hne
+      simp [hne] at hcl
+    refine ⟨hlt, hnum, ?_⟩
+    by_contra hout
+    have := outside_pixel_interval_nan x r c j hout
+    rw [this] at hnum
+    simp [Cell.isNan] at hnum
+
+/-- the pixel's own interval lies inside the global one -/
+theorem pixel_interval_in_global (x : Input) (r c k : Int) (hr : 0 ≤ r ∧ r < x.L.rows) (hc : 0 ≤ c ∧ c < x.L.cols)
+    (h : InPixelInterval x r c k) :
+    gridMin x.dminG x.L.rows x.L.cols * (x.sp : Int) ≤ k ∧ k ≤ gridMax x.dmaxG x.L.rows x.L.cols * (x.sp : Int) := by
+  have hs' : (0 : Int) ≤ x.sp := by exact_mod_cast (Nat.zero_le _)
+  have h1 := Int.mul_le_mul_of_nonneg_right (gridMin_le x.dminG x.L.rows x.L.cols r c hr hc) hs'
+  have h2 := Int.mul_le_mul_of_nonneg_right (le_gridMax x.dmaxG x.L.rows x.L.cols r c hr hc) hs'
+  unfold InPixelInterval at h
+  omega
+
+end Pandora.C09
